@@ -90,6 +90,7 @@ func runCase(c ringlab.ChurnCfg, rep *batch.Report) batch.CaseResult {
 	}
 	if res.JoinsOK+res.LeavesDone > 0 && acked > 0 {
 		out.Sig = res.EventSig
+		out.Sigs = append(out.Sigs, "overlaps:"+res.OverlapSig)
 	}
 	out.Sample = map[string]any{"cfg": c, "final_members": len(res.Live), "ops": len(res.Ops), "acked_writes": acked, "retryable_errors": retry, "reads_checked": reads, "joins_ok": res.JoinsOK, "leaves_done": res.LeavesDone, "first_ops": firstOps(res.Ops, 6)}
 	return out
@@ -110,7 +111,7 @@ func main() {
 	child.Register("cases", runCases)
 	child.Main()
 	r := ev.Start("C03", "exploration")
-	r.SetRule("executions of real rings (memory in all tiers; AOF and SQLite for a third of the cases, <= 8 nodes) with 2-4 single-writer clients issuing Put(unique value)/Delete/PrefixAppend/PrefixRemove/Get/PrefixContains/PrefixList through random entry nodes (re-picked on every retry) while 1-3 goroutines join and leave nodes; seeded delays at the chord hook points; distinct+non-trivial = hash of the interleaving of membership hook events across nodes, for executions with at least one completed join/leave and one acknowledged write; a fifth of the executions store 220-520 write-once ballast keys before the churn and read each back after quiescence")
+	r.SetRule("executions of real rings (memory in all tiers; AOF and SQLite for a third of the cases, <= 8 nodes) with 2-4 single-writer clients issuing Put(unique value)/Delete/PrefixAppend/PrefixRemove/Get/PrefixContains/PrefixList through random entry nodes (re-picked on every retry) while 1-3 goroutines join and leave nodes; seeded delays at the chord hook points; distinct+non-trivial = hash of the interleaving of membership hook events across nodes, and separately the set of kinds of membership operations whose windows overlapped ({join,leave} x {join,leave} x ring distance adjacent / one node between / farther, with or without a failed attempt), for executions with at least one completed join/leave and one acknowledged write; a fifth of the executions store 220-520 write-once ballast keys before the churn and read each back after quiescence")
 	r.Assume("each key has a single sequential writer, so the model of acknowledged state is deterministic; an operation is retried until acknowledged")
 	r.Assume("whether a key holding no data is still listed by a raw store is not judged")
 	rng := r.Rand("cases")
